@@ -36,7 +36,10 @@
 // the run a lock belongs to (an abstract identity), the module name as a value
 pub uninterp spec fn run_of<T>(l: &RwLock<T>) -> int;
 pub uninterp spec fn in_updated(run: int, m: Seq<char>) -> bool;
-pub tracked struct Clock { pub ghost now: nat }
+// `held`: the acquisition steps of the mutex guards this call holds: `lock` adds its step, an explicit
+// `drop(guard)` removes it (a guard that simply goes out of scope at the end of the function is the
+// business of the *_hold unit).
+pub tracked struct Clock { pub ghost now: nat, pub ghost held: Set<nat> }
 pub uninterp spec fn seen_absent_at(run: int, m: Seq<char>, t: nat) -> bool;
 pub uninterp spec fn mutex_of(run: int, m: Seq<char>, mx: &Mutex<()>) -> bool;
 pub uninterp spec fn fetched(run: int, m: Seq<char>) -> bool;
@@ -95,8 +98,10 @@ impl RsyncCommand {
             // having read `updated` and found the module absent
             exists|mx: &Mutex<()>, tl: nat, tc: nat| #[trigger] mutex_of(self.run_spec(), source.name(), mx)
                 && #[trigger] lock_acquired_at(mx, tl) && #[trigger] seen_absent_at(self.run_spec(), source.name(), tc)
-                && tl < tc && tc < old(clk).now,
-        ensures fetched(self.run_spec(), source.name()), final(clk).now == old(clk).now + 1,
+                && tl < tc && tc < old(clk).now
+                // ... and that mutex has not been released since
+                && old(clk).held.contains(tl),
+        ensures fetched(self.run_spec(), source.name()), final(clk).now == old(clk).now + 1, final(clk).held == old(clk).held,
     { unimplemented!() }
 }
 
@@ -104,11 +109,11 @@ impl RsyncCommand {
 impl<T> RwLock<T> {
     #[verifier::external_body]
     pub fn read(&self, Tracked(clk): Tracked<&mut Clock>) -> (g: RwLockReadGuard<'_, T>)
-        ensures g.run() == run_of(self), g.time() == old(clk).now, final(clk).now == old(clk).now + 1,
+        ensures g.run() == run_of(self), g.time() == old(clk).now, final(clk).now == old(clk).now + 1, final(clk).held == old(clk).held,
     { unimplemented!() }
     #[verifier::external_body]
     pub fn write(&self, Tracked(clk): Tracked<&mut Clock>) -> (g: RwLockWriteGuard<'_, T>)
-        ensures g.run() == run_of(self), g.time() == old(clk).now, final(clk).now == old(clk).now + 1,
+        ensures g.run() == run_of(self), g.time() == old(clk).now, final(clk).now == old(clk).now + 1, final(clk).held == old(clk).held,
     { unimplemented!() }
 }
 impl<'a, T> RwLockReadGuard<'a, T> { pub uninterp spec fn run(&self) -> int; pub uninterp spec fn time(&self) -> nat; }
@@ -116,11 +121,13 @@ impl<'a, T> RwLockWriteGuard<'a, T> { pub uninterp spec fn run(&self) -> int; pu
 impl<T> Mutex<T> {
     #[verifier::external_body]
     pub fn lock(&self, Tracked(clk): Tracked<&mut Clock>) -> (g: MutexGuard<'_, T>)
-        ensures g.mutex_spec() == self, lock_acquired_at(self, old(clk).now), final(clk).now == old(clk).now + 1,
+        ensures g.mutex_spec() == self, g.acquired_at() == old(clk).now, lock_acquired_at(self, old(clk).now),
+                final(clk).now == old(clk).now + 1, final(clk).held == old(clk).held.insert(old(clk).now),
     { unimplemented!() }
 }
 impl<'a, T> MutexGuard<'a, T> {
     pub uninterp spec fn mutex_spec(&self) -> &Mutex<T>;
+    pub uninterp spec fn acquired_at(&self) -> nat;
 }
 pub uninterp spec fn lock_acquired_at<T>(mx: &Mutex<T>, t: nat) -> bool;
 
@@ -134,12 +141,14 @@ impl<'a> RwLockReadGuard<'a, HashSet<OwnedModule>> {
 }
 impl<'a> RwLockWriteGuard<'a, HashSet<OwnedModule>> {
     #[verifier::external_body]
-    pub fn insert(&mut self, m: OwnedModule) -> (r: bool)
+    pub fn insert(&mut self, m: OwnedModule, Tracked(clk): Tracked<&mut Clock>) -> (r: bool)
         requires
-            // C37 (G3): a module is recorded as updated only by the thread holding its mutex
+            // C37 (G3): a module is recorded as updated only by a thread that acquired its mutex before
+            // and has NOT released it since
             exists|mx: &Mutex<()>, tl: nat| #[trigger] mutex_of(old(self).run(), m.name(), mx)
-                && #[trigger] lock_acquired_at(mx, tl) && tl < old(self).time(),
+                && #[trigger] lock_acquired_at(mx, tl) && tl < old(self).time() && old(clk).held.contains(tl),
         ensures in_updated(old(self).run(), m.name()), final(self).run() == old(self).run(), final(self).time() == old(self).time(),
+                final(clk).now == old(clk).now, final(clk).held == old(clk).held,
     { unimplemented!() }
 }
 // `running`: module name -> mutex
@@ -193,9 +202,10 @@ impl<'a> RwLockWriteGuard<'a, HashMap<OwnedModule, Arc<Mutex<()>>>> {
     #[verifier::external_body] pub fn contains_key(&self, m: &Module) -> bool { unimplemented!() }
     // inserting a fresh mutex REPLACES the entry: only allowed once the module is in `updated` (G2)
     #[verifier::external_body]
-    pub fn insert(&mut self, m: OwnedModule, mx: Arc<Mutex<()>>) -> (r: Option<Arc<Mutex<()>>>)
+    pub fn insert(&mut self, m: OwnedModule, mx: Arc<Mutex<()>>, Tracked(clk): Tracked<&mut Clock>) -> (r: Option<Arc<Mutex<()>>>)
         requires in_updated(old(self).run(), m.name()),
         ensures final(self).run() == old(self).run(), final(self).time() == old(self).time(),
+                final(clk).now == old(clk).now, final(clk).held == old(clk).held,
     { unimplemented!() }
 }
 impl Module {
@@ -258,3 +268,10 @@ impl Default for Mutex<()> {
     // a brand-new mutex: not the mutex of any module/repository of this run
     #[verifier::external_body] fn default() -> Self { unimplemented!() }
 }
+
+// std::mem::drop applied to a mutex guard: releases the mutex -- a clocked event (rule R20, "drop" in
+// clock_calls). Shadows the prelude's `drop` inside the generated module.
+#[verifier::external_body]
+pub fn drop<'a, T>(g: MutexGuard<'a, T>, Tracked(clk): Tracked<&mut Clock>)
+    ensures final(clk).now == old(clk).now + 1, final(clk).held == old(clk).held.remove(g.acquired_at()),
+{ unimplemented!() }
